@@ -9,6 +9,7 @@ every body that satisfies `BodyWF`.
 -/
 import SwimVerif.Proofs.Envelope
 import SwimVerif.Proofs.Routing
+import SwimVerif.Proofs.WsFrames
 import SwimVerif.Proofs.MultiReader
 import SwimVerif.Proofs.MultiReaderReady
 import SwimVerif.Proofs.MultiReaderPending
@@ -281,7 +282,7 @@ theorem C11_invalid_not_delivered (ops : List Routing.Op) (frame : Str)
     · rfl
 
 /-- Only an incoming frame causes a delivery: attaching, detaching, sending, stopping never do. -/
-theorem C11_only_input_delivers (st : St) (op : Routing.Op) (h : ∀ f, op ≠ .input f) :
+theorem C11_only_input_delivers (st : St) (op : Routing.Op) (h : ∀ f, op ≠ .input f) (h' : ∀ fs, op ≠ .frames fs) :
     ∀ e ∈ (step st op).2, isDelivery e = false := by
   have hstop : ∀ extra : List Ev, (∀ e ∈ extra, isDelivery e = false) →
       ∀ e ∈ (stopAll st extra).2, isDelivery e = false := by
@@ -293,6 +294,7 @@ theorem C11_only_input_delivers (st : St) (op : Routing.Op) (h : ∀ f, op ≠ .
     · exact hx e he
   cases op with
   | input f => exact absurd rfl (h f)
+  | frames fs => exact absurd rfl (h' fs)
   | agents ns => simp [step]
   | attach id n l => simp only [step]; split <;> simp
   | attachOne id n l => simp only [step]; split <;> simp
@@ -300,7 +302,7 @@ theorem C11_only_input_delivers (st : St) (op : Routing.Op) (h : ∀ f, op ≠ .
   | burst srcs =>
     simp only [step]
     split
-    · clear h
+    · clear h h'
       generalize st.counter = k
       induction srcs generalizing k with
       | nil => simp [burstEvents]
@@ -321,6 +323,116 @@ theorem C11_only_input_delivers (st : St) (op : Routing.Op) (h : ∀ f, op ≠ .
     split
     · exact hstop _ (by simp [isDelivery])
     · simp
+
+/-! ### incoming web-socket frames: fragmented messages, control frames -/
+
+/-- **`fragmented_message_reassembled`**: for every payload, every way of cutting it into fragments (a `text` frame
+followed by `continuation` frames, the last one final; cuts anywhere, also inside the header or inside a multi-byte
+character) and every interleaving of ping/pong control frames before, between the fragments, the stream of text
+messages handed to the incoming task is exactly one message: the concatenation of the fragments — and the buffer is
+empty again afterwards. -/
+theorem C11_fragmented_message_reassembled (pre : List WsFrames.Ctl)
+    (chunks : List (List Nat × List WsFrames.Ctl)) (last : List Nat) :
+    WsFrames.run {} (WsFrames.ctlFrames pre ++ WsFrames.fragFrames true chunks last) =
+      ({}, [.text (chunks.flatMap (·.1) ++ last)]) := by
+  rw [WsFrames.run_ctl]
+  have := WsFrames.run_frag [] true chunks last (fun _ => rfl)
+  simpa using this
+
+/-- control frames alone never produce a message nor touch a partially received one -/
+theorem C11_control_frames_keep_buffer (a : WsFrames.Asm) (cs : List WsFrames.Ctl) :
+    WsFrames.run a (WsFrames.ctlFrames cs) = (a, []) := by
+  have := WsFrames.run_ctl a cs []
+  simpa [WsFrames.run] using this
+
+theorem stepFrame_ping (st : St) : stepFrame st .ping = (st, []) ∧ stepFrame st .pong = (st, []) := by
+  unfold stepFrame
+  by_cases hr : st.running = true
+  · rw [if_pos hr, if_pos hr]; exact ⟨rfl, rfl⟩
+  · rw [if_neg hr, if_neg hr]; exact ⟨rfl, rfl⟩
+
+theorem stepFrames_ctl (st : St) (cs : List WsFrames.Ctl) (fs : List WsFrames.Frame) :
+    stepFrames st (WsFrames.ctlFrames cs ++ fs) = stepFrames st fs := by
+  induction cs with
+  | nil => rfl
+  | cons c cs ih =>
+    cases c
+    · simp only [WsFrames.ctlFrames, List.cons_append, stepFrames, (stepFrame_ping st).1, List.nil_append, ih]
+    · simp only [WsFrames.ctlFrames, List.cons_append, stepFrames, (stepFrame_ping st).2, List.nil_append, ih]
+
+/-- **A fragmented envelope is routed like the whole envelope**: on a running task with an empty read buffer, the
+frames of a fragmented text message (with any control frames in between) have exactly the effect of the complete
+text arriving in one frame. -/
+theorem C11_fragmented_envelope_routed (st : St) (s : Str) (pre : List WsFrames.Ctl)
+    (chunks : List (List Nat × List WsFrames.Ctl)) (last : List Nat)
+    (hr : st.running = true) (ha : st.asm = {}) (hs : utf8 (chunks.flatMap (·.1) ++ last) = some s) :
+    stepFrames st (WsFrames.ctlFrames pre ++ WsFrames.fragFrames true chunks last) = stepInput st s := by
+  rw [stepFrames_ctl]
+  -- generalise over the position in the message
+  have key : ∀ (chunks : List (List Nat × List WsFrames.Ctl)) (first : Bool) (buf : List Nat) (st' : St),
+      st'.running = true → st'.asm = ⟨buf, !first⟩ → (first = true → buf = []) →
+      utf8 (buf ++ chunks.flatMap (·.1) ++ last) = some s →
+      stepFrames st' (WsFrames.fragFrames first chunks last) = stepInput { st' with asm := {} } s := by
+    intro chunks
+    induction chunks with
+    | nil =>
+      intro first buf st' hr' ha' hb hu
+      cases first with
+      | true =>
+        have := hb rfl; subst this
+        simp only [List.flatMap_nil, List.append_nil, List.nil_append] at hu
+        simp [WsFrames.fragFrames, stepFrames, stepFrame, WsFrames.step, hr', ha', hu]
+      | false =>
+        simp only [List.flatMap_nil, List.append_nil] at hu
+        simp [WsFrames.fragFrames, stepFrames, stepFrame, WsFrames.step, hr', ha', hu]
+    | cons c rest ih =>
+      intro first buf st' hr' ha' hb hu
+      obtain ⟨c, ctl⟩ := c
+      have hu' : utf8 (buf ++ c ++ rest.flatMap (·.1) ++ last) = some s := by
+        simpa [List.append_assoc] using hu
+      have step1 : ∀ f, (f = WsFrames.Frame.text false c ∧ first = true) ∨ (f = WsFrames.Frame.cont false c ∧ first = false) →
+          stepFrame st' f = ({ st' with asm := ⟨buf ++ c, true⟩ }, []) := by
+        intro f hf
+        rcases hf with ⟨rfl, rfl⟩ | ⟨rfl, rfl⟩
+        · have := hb rfl; subst this
+          simp [stepFrame, WsFrames.step, hr', ha']
+        · simp [stepFrame, WsFrames.step, hr', ha']
+      have hnext := ih false (buf ++ c) { st' with asm := ⟨buf ++ c, true⟩ } hr' rfl (by simp) hu'
+      cases first with
+      | true =>
+        simp only [WsFrames.fragFrames, if_true, stepFrames, step1 _ (Or.inl ⟨rfl, rfl⟩), List.nil_append]
+        rw [stepFrames_ctl, hnext]
+      | false =>
+        simp only [WsFrames.fragFrames, Bool.false_eq_true, if_false, stepFrames, step1 _ (Or.inr ⟨rfl, rfl⟩),
+          List.nil_append]
+        rw [stepFrames_ctl, hnext]
+  have := key chunks true [] st hr (by rw [ha]; rfl) (fun _ => rfl) (by simpa using hs)
+  rw [this]
+  have e : ({ st with asm := {} } : St) = st := by
+    cases st; simp_all
+  rw [e]
+
+/-- a binary message, a close frame, or a data frame that breaks the fragmentation rules is delivered to nobody -/
+theorem C11_non_text_frames_not_delivered (st : St) (f : WsFrames.Frame)
+    (h : (WsFrames.step st.asm f).2 = .binary ∨ (WsFrames.step st.asm f).2 = .protoErr ∨
+         (WsFrames.step st.asm f).2 = .closed ∨ (WsFrames.step st.asm f).2 = .none) :
+    ∀ e ∈ (stepFrame st f).2, isDelivery e = false := by
+  have hstop : ∀ extra : List Ev, (∀ e ∈ extra, isDelivery e = false) →
+      ∀ e ∈ (stopAll st extra).2, isDelivery e = false := by
+    intro extra hx e he
+    simp only [stopAll, endEvents, List.mem_append, List.mem_filterMap] at he
+    rcases he with (⟨p, _, hp'⟩ | ⟨d, _, hd'⟩) | he
+    · split at hp' <;> simp at hp'; subst hp'; rfl
+    · split at hd' <;> simp at hd'; subst hd'; rfl
+    · exact hx e he
+  unfold stepFrame
+  split
+  · rcases h with h | h | h | h <;> rw [h] <;> simp only
+    · exact hstop _ (by simp [isDelivery])
+    · exact hstop _ (by simp [isDelivery])
+    · exact hstop _ (by simp [isDelivery])
+    · simp
+  · simp
 
 /-! ### outgoing frames: agents, downlinks and send-only clients (`AttachClient::OneWay`) -/
 
